@@ -668,6 +668,23 @@ Proof.
     cbv zeta. rewrite Hr. apply range_validate; auto.
 Qed.
 
+Lemma float_to_decimal_exact_when_representable_val : forall oc f d p s bits neg m e,
+  std_dty d -> 0 <= p <= d_maxp d -> 0 <= s <= 22 ->
+  decode f bits = FFin neg m e -> 0 <= m -> m * 5 ^ s < 2 ^ 53 -> -1074 <= e -> e + s <= 971 ->
+  float_to_decimal oc f d p s bits =
+  (let r := signed neg (if 0 <=? e then m * 10 ^ s * 2 ^ e else rha_div (m * 10 ^ s) (2 ^ (- e))) in
+   if Z.abs r <? 10 ^ p then Ok r else Err).
+Proof.
+  intros oc f d p s bits neg m e Hd Hp Hs Hdec Hm Hfit Hlo Hhi.
+  rewrite (float_to_decimal_exact_when_representable oc f d p s bits neg m e Hd Hp Hs Hdec Hm Hfit Hlo Hhi).
+  unfold float_decimal_spec. rewrite Hdec. reflexivity.
+Qed.
+
+Example float_representable_hyps_sat :      (* f64 2.5 as DECIMAL(5,2) *)
+  decode F64 4612811918334230528 = FFin false 5629499534213120 (-51) /\ 5629499534213120 * 5 ^ 2 < 2 ^ 53
+  /\ float_to_decimal true F64 D64 5 2 4612811918334230528 = Ok 250.
+Proof. vm_compute. repeat split; reflexivity. Qed.
+
 Lemma decode_f32_bounds : forall bits neg m e, decode F32 bits = FFin neg m e -> 0 <= m < 2 ^ 24 /\ -149 <= e <= 104.
 Proof.
   intros bits neg m e H. unfold decode, f_bias in H. cbn [F32 f_mbits f_ebits] in H.
